@@ -1,4 +1,5 @@
 import Afkak.BrokerClient
+import Afkak.Bootstrap
 /-!
 # Framing × broker client, at the byte level, per connection (core Lean only)
 
@@ -10,8 +11,9 @@ run the framing loop over that string ONCE, from its start (`parseAll`); then
 * a request Deferred that fires `ok b` during a `dataReceived` fires with a packet `b` that this very call
   completed in that whole-stream parse, and whose first bytes are the request's correlation id;
 * nothing fires `ok` outside a `dataReceived` of a live connection;
-* a stream whose whole-stream parse stops at an over-long prefix has had `loseConnection()` called on it, and no
-  byte is handed to a connection after it was told to go.
+* a stream whose whole-stream parse stops at an over-long prefix has had `loseConnection()` called on it (or the same
+  `dataReceived` completed a packet too short to carry an id, whose exception drops the connection), and no byte is
+  handed to a connection after it was told to go.
 
 `lstep` is the fold that cuts a recorded trace `(event, observations)` into per-connection logs and checks the
 above as it goes (`bad` is sticky).  It never looks at `_unprocessed`, at the request table, or at how the bytes
@@ -113,5 +115,44 @@ def bytesFirstBad (l : LSt) (n : Nat) : List (Ev × List Ob) → Option Nat
 def logOk (g : ConnLog) : Bool :=
   g.oks.all (fun x => (parseAll g.bytes).frames.contains x.2.2 && corrId x.2.2 == some x.2.1) &&
   (!(parseAll g.bytes).exceeded || g.dropped)
+
+/-! ## The same for one `KafkaBootstrapProtocol` connection (one connection: one byte string) -/
+namespace Boot
+open Afkak.Bootstrap
+
+/-- payloads of the `ok` firings among the observations of one step -/
+def okPayloads : List Bootstrap.Ob → List Bytes
+  | [] => []
+  | .fire _ (.ok b) :: os => b :: okPayloads os
+  | _ :: os => okPayloads os
+
+structure BL where
+  /-- every byte handed to the protocol so far -/
+  bytes : Bytes
+  bad : Bool
+  deriving DecidableEq, Repr
+
+def BL.init : BL := { bytes := [], bad := false }
+
+/-- every `ok` payload of a `dataReceived` is a packet which that call completed in the parse of ALL the bytes received
+    so far, run once from the start; nothing fires `ok` in any other step -/
+def bstepL (l : BL) : Bootstrap.Ev × List Bootstrap.Ob → BL
+  | (.bytesIn chunk, os) =>
+    if os.contains .badOp then { l with bad := l.bad || !(okPayloads os).isEmpty }
+    else { bytes := l.bytes ++ chunk,
+           bad := l.bad || !(okPayloads os).all (fun b => (newFrames l.bytes chunk).contains b) }
+  | (_, os) => { l with bad := l.bad || !(okPayloads os).isEmpty }
+
+def brunL (l : BL) : List (Bootstrap.Ev × List Bootstrap.Ob) → BL
+  | [] => l
+  | t :: ts => brunL (bstepL l t) ts
+
+def bootBytesOk (tr : List (Bootstrap.Ev × List Bootstrap.Ob)) : Bool := !(brunL BL.init tr).bad
+
+def bootBytesFirstBad (l : BL) (n : Nat) : List (Bootstrap.Ev × List Bootstrap.Ob) → Option Nat
+  | [] => none
+  | t :: ts => if (bstepL l t).bad then some n else bootBytesFirstBad (bstepL l t) (n + 1) ts
+
+end Boot
 
 end Afkak.BrokerClientBytes
